@@ -58,6 +58,8 @@ class MethodMixin:
         reg(hasattr, self.b_hasattr)
         reg(type, self.b_type)
         reg(sum, self.b_sum)
+        import os.path
+        reg(os.path.isabs, lambda a, k, n, f: os.path.isabs(a[0]) if not is_sym(a[0]) else self.ufun('py_isabs', STR, z3.BoolSort())(a[0]))
         reg(api.unit, lambda a, k, n, f: (a[0],))
         reg(api.implies, lambda a, k, n, f: self.lor(self.lnot(self.truth(a[0])), self.truth(a[1])))
 
@@ -103,14 +105,15 @@ class MethodMixin:
             return self.obj_isinstance(v, t)
         if z3.is_expr(v):
             s = v.sort()
+            sub = lambda pyt: isinstance(t, type) and issubclass(pyt, t) or (t in (collections.abc.Iterable, collections.abc.Sequence) and pyt in (str, tuple))
             if s == z3.BoolSort():
-                return t in (bool, int, object)
+                return sub(bool)
             if s == INT:
-                return t in (int, object)
+                return sub(int)
             if s == STR:
-                return t in (str, object)
+                return sub(str)
             if isinstance(s, z3.SeqSortRef):
-                return t in (tuple, list, object, collections.abc.Sequence)
+                return sub(tuple) or t is list
             if s.name() in self.zs.union_by_sort:
                 dt, S = self.zs.union_by_sort[s.name()]
                 alts = []
@@ -337,6 +340,19 @@ class MethodMixin:
             if isinstance(recv, type):
                 return self.call_function(bm.fn, [recv] + list(args), kwargs, node)
             return self.call_function(bm.fn, [recv] + list(args), kwargs, node)
+        if isinstance(recv, VObj):
+            # method of an opaque object: an uninterpreted function of the object and the arguments (assumed pure),
+            # recorded in the ghost effect trace
+            argsorts, ret = self.cur_contract.opaque[name]
+            zs = self.zs
+            f = self.ufun(f'obj_{name}', zs.zsort(api.Obj), *[zs.zsort(s_) for s_ in argsorts], zs.zsort(ret))
+            a2 = [zs.lift(self.unwrap_term(a), zs.zsort(s_)) for a, s_ in zip(args, argsorts)]
+            self.path.trace.append((name, tuple(a2)))
+            self.assumptions.add(f'opaque method {name} is a pure function of the object and its arguments')
+            r = f(recv.term, *a2)
+            if isinstance(ret, api.List):
+                return VBox(ret.kind, r, ret.elem)
+            return self.wrap_sort(r, ret)
         if isinstance(recv, PyList):
             return self.m_pylist(recv, name, args, kwargs, node)
         if isinstance(recv, PyDict):
@@ -448,6 +464,9 @@ class MethodMixin:
             recv.term = z3.Concat(z3.Unit(self.zs.lift(args[0], es)), t)
         elif name == 'extend':
             recv.term = z3.Concat(t, self.as_seq(args[0], t.sort()))
+        elif name == 'extendleft':
+            o = self.as_seq(args[0], t.sort())
+            recv.term = z3.Concat(self.zs.seq_rev_fn(t.sort())(o, z3.Length(o)), t)
         elif name == 'clear':
             recv.term = z3.Empty(t.sort())
         elif name == 'copy':
